@@ -411,7 +411,8 @@ class Merge(Expr):
                     _broadcast_side=self.broadcast_side,
                 )
 
-        if (shuffle_left_on or shuffle_right_on) and (
+        # A key can be the label 0: compare with None instead of testing the truth
+        if (shuffle_left_on is not None or shuffle_right_on is not None) and (
             shuffle_method == "p2p"
             or shuffle_method is None
             and get_default_shuffle_method() == "p2p"
@@ -431,7 +432,7 @@ class Merge(Expr):
                 _npartitions=self.operand("_npartitions"),
             )
 
-        if shuffle_left_on:
+        if shuffle_left_on is not None:
             # Shuffle left
             left = RearrangeByColumn(
                 left,
@@ -441,7 +442,7 @@ class Merge(Expr):
                 index_shuffle=left_index,
             )
 
-        if shuffle_right_on:
+        if shuffle_right_on is not None:
             # Shuffle right
             right = RearrangeByColumn(
                 right,
